@@ -91,6 +91,8 @@ def build(config, quiet=True):
                      key=lambda p: os.path.getmtime(p), reverse=True)
         for p in old[3:]:
             shutil.rmtree(p, ignore_errors=True)
+        if os.path.exists(out):
+            shutil.rmtree(out, ignore_errors=True)   # partial build (a previous compile error)
         os.makedirs(os.path.join(out, "obj"))
         inc = os.path.join(out, "inc")
         os.makedirs(os.path.join(inc, "include"))
